@@ -1,8 +1,14 @@
 import Rbgp.Rtr.Codec
+import Rbgp.Rtr.Spec
 namespace Rbgp.C13
 open Rbgp Rbgp.Term Rbgp.Rtr Rbgp.Rtr.Codec
 
-/-- mode `model`: case ↦ observation of the model -/
+def verdictStr : Spec.Verdict → String
+  | .ok => "ok"
+  | .fail i c => s!"fail step={i} clause={c}"
+
+/-- mode `model`: case ↦ observation of the model;
+    mode `oracle`: case TAB observation ↦ verdict of the C13 reference checker. -/
 def handler (mode : String) (line : String) : String :=
   match mode with
   | "model" =>
@@ -10,6 +16,20 @@ def handler (mode : String) (line : String) : String :=
       | some (.script c) => toStr (outT (run c))
       | some (.tcp n) => toStr (tcpT n)
       | none => "(bad-case)"
+  | "oracle" =>
+      match parseMany line with
+      | some [c, o] =>
+          match caseOf? c with
+          | some (.script c) =>
+              match outOf? o with
+              | some out => verdictStr (Spec.check c out)
+              | none => "fail step=0 clause=unparsable-observation"
+          | some (.tcp n) =>
+              -- every cancellation must have removed the cache's VRPs
+              if toStr o == toStr (tcpT n) then "ok" else "fail step=0 clause=vrps-remain-after-cancel"
+          | none =>
+              if toStr o == "(bad-case)" then "ok" else "fail step=0 clause=ill-formed-case-accepted"
+      | _ => "(bad-line)"
   | _ => "(bad-mode)"
 
 end Rbgp.C13
